@@ -523,3 +523,184 @@ Proof.
     rewrite E in Hin. destruct Hin.
   - right. exists (c0 :: cs). split; [reflexivity|]. split; [discriminate|]. intros c. rewrite <- E. apply filter_In.
 Qed.
+
+(* ---------- a validated document cannot make the reader panic (outside the known classes) ---------- *)
+Lemma forallb_false_exists {A} (f : A -> bool) l : forallb f l = false -> exists x, In x l /\ f x = false.
+Proof.
+  induction l as [|a l IH]; cbn; [discriminate|]. destruct (f a) eqn:E; cbn.
+  - intros H. destruct (IH H) as (x & Hx & Hf). exists x. auto.
+  - intros _. exists a. auto.
+Qed.
+
+Lemma shift_rule_some skip ws inside o :
+  nonempty ws && negb (windows_ok skip ws && inside) = false -> In o ws -> exists w : Z * Z, o = Some w.
+Proof.
+  intros H Ho. destruct ws as [|x r]; [destruct Ho|]. cbn [nonempty andb] in H. apply negb_false_iff in H.
+  apply andb_prop in H. destruct H as [H _]. destruct (windows_ok_all_some _ _ H o Ho) as (w & -> & _). now exists w.
+Qed.
+
+Lemma parse_window_some w x : parse_window w = Some x -> tw_panics w = false.
+Proof.
+  destruct w as [|a [|b [|c r]]]; cbn; try discriminate. unfold tm_bad, is_none.
+  destruct (tm_val a), (tm_val b); cbn; congruence.
+Qed.
+
+Lemma times_ok_no_panic tws : times_ok tws = true -> existsb tw_panics tws = false.
+Proof.
+  unfold times_ok. intros H. apply andb_prop in H. destruct H as [_ H]. apply existsb_false. intros w Hw.
+  destruct (windows_ok_all_some _ _ H (parse_window w) (in_map _ _ _ Hw)) as (x & Hx & _). now apply (parse_window_some w x).
+Qed.
+
+Section Safe.
+  Variable d : doc.
+  Hypothesis Hk : known d = false.
+  Hypothesis Hv : forall c, In c (map fst all_checks) -> violates c d = false.
+
+  Let H1302 : viol_1302 d = false. Proof. apply (Hv 1302). cbn. tauto. Qed.
+  Let H1103 : viol_1103 d = false. Proof. apply (Hv 1103). cbn. tauto. Qed.
+  Let H1303 : viol_1303 d = false. Proof. apply (Hv 1303). cbn. tauto. Qed.
+  Let H1304 : viol_1304 d = false. Proof. apply (Hv 1304). cbn. tauto. Qed.
+  Let H1505 : viol_1505 d = false. Proof. apply (Hv 1505). cbn. tauto. Qed.
+
+  Lemma shifts_parse v : In v (d_vehicles d) ->
+    v_shifts v <> [] /\ forall s, In s (v_shifts v) ->
+      tm_bad (sh_earliest s) = false /\ match sh_end s with Some e => tm_bad e | None => false end = false.
+  Proof.
+    intros Hin. unfold viol_1302 in H1302. rewrite existsb_false in H1302. specialize (H1302 v Hin). cbn beta in H1302.
+    apply negb_false_iff in H1302. apply andb_prop in H1302. destruct H1302 as [Hne Hok]. split.
+    - now destruct (v_shifts v).
+    - intros s Hs. destruct (windows_ok_all_some _ _ Hok (shift_window s) (in_map _ _ _ Hs)) as (w & Hw & _).
+      unfold shift_window in Hw. unfold tm_bad, is_none.
+      destruct (tm_val (sh_earliest s)); [|discriminate]. destruct (sh_end s) as [e|]; [|auto].
+      destruct (tm_val e); [auto|discriminate].
+  Qed.
+
+  Lemma fleet_safe : fleet_panics d = false.
+  Proof.
+    destruct (known_false d Hk) as (_ & _ & _ & H4 & _ & H6 & H7 & _ & H9 & _).
+    unfold fleet_panics. apply orb_false_iff. split; [apply orb_false_iff; split|].
+    - exact H1505.
+    - apply existsb_false. intros v Hin. apply existsb_false. intros s Hs.
+      destruct (shifts_parse v Hin) as [_ Hp]. destruct (Hp s Hs) as [He Hend]. rewrite He, Hend. cbn [orb].
+      unfold k4_start_latest_bad in H4. rewrite existsb_false in H4. specialize (H4 v Hin). cbn beta in H4.
+      rewrite existsb_false in H4. specialize (H4 s Hs). cbn beta in H4. unfold tm_bad. rewrite H4. cbn [orb].
+      unfold k6_capacity_empty in H6. rewrite existsb_false in H6. specialize (H6 v Hin). cbn beta in H6.
+      unfold k7_over8 in H7. apply orb_false_iff in H7. destruct H7 as [H7 _]. rewrite existsb_false in H7.
+      specialize (H7 v Hin). cbn beta in H7. unfold over8. rewrite H7, H6. now destruct (has_multi_dimen_capacity d), (v_ids v).
+    - destruct (forallb _ (d_vehicles d)) eqn:E; [exfalso|reflexivity]. rewrite forallb_forall in E.
+      unfold k9_no_vehicles in H9. destruct (forallb_false_exists _ _ H9) as (v & Hin & Hids).
+      specialize (E v Hin). destruct (shifts_parse v Hin) as [Hne _].
+      destruct (v_shifts v); [now apply Hne|]. destruct (v_ids v); discriminate.
+  Qed.
+
+  Lemma breaks_some v s bs o : In v (d_vehicles d) -> In s (v_shifts v) -> sh_breaks s = Some bs ->
+    In o (break_windows s bs) -> exists w : Z * Z, o = Some w.
+  Proof.
+    intros Hin Hs Eb Ho. unfold viol_1303 in H1303. rewrite existsb_false in H1303. specialize (H1303 v Hin). cbn beta in H1303.
+    rewrite existsb_false in H1303. specialize (H1303 s Hs). cbn beta in H1303. rewrite Eb in H1303. cbv zeta in H1303.
+    eapply shift_rule_some; eassumption.
+  Qed.
+
+  Lemma reloads_some v s rs o : In v (d_vehicles d) -> In s (v_shifts v) -> sh_reloads s = Some rs ->
+    In o (reload_windows rs) -> exists w : Z * Z, o = Some w.
+  Proof.
+    intros Hin Hs Er Ho. unfold viol_1304 in H1304. rewrite existsb_false in H1304. specialize (H1304 v Hin). cbn beta in H1304.
+    rewrite existsb_false in H1304. specialize (H1304 s Hs). cbn beta in H1304. rewrite Er in H1304. cbv zeta in H1304.
+    eapply shift_rule_some; eassumption.
+  Qed.
+
+  Lemma reserved_safe : reserved_times_panic d = false.
+  Proof.
+    unfold reserved_times_panic. apply existsb_false. intros v Hin. apply existsb_false. intros s Hs.
+    apply existsb_false. intros b Hb. destruct b as [w|o|e l dur|e l dur]; try reflexivity.
+    destruct (sh_breaks s) as [bs|] eqn:Eb; [|destruct Hb]. cbn [olist] in Hb.
+    destruct (breaks_some v s bs (match tm_val e, tm_val l with Some a, Some b => Some (a, b + dur) | _, _ => None end) Hin Hs Eb)
+      as (w & Hw).
+    - unfold break_windows. apply in_flat_map. exists (BReqExact e l dur). split; [exact Hb|now left].
+    - unfold tm_bad, is_none. destruct (tm_val e), (tm_val l); try discriminate. reflexivity.
+  Qed.
+
+  Lemma jobs_safe : jobs_panic d = false.
+  Proof.
+    destruct (known_false d Hk) as (_ & _ & _ & _ & _ & _ & H7 & _).
+    unfold jobs_panic. apply existsb_false. intros j Hj. apply existsb_false. intros t Ht.
+    rewrite (k7_jobs d H7 j Hj t Ht). cbn [orb]. apply existsb_false. intros p Hp.
+    unfold viol_1103 in H1103. rewrite existsb_false in H1103. specialize (H1103 j Hj). cbn beta in H1103.
+    rewrite existsb_false in H1103. specialize (H1103 t Ht). cbn beta in H1103.
+    rewrite existsb_false in H1103. specialize (H1103 p Hp). cbn beta in H1103.
+    unfold times_panic. destruct (pl_times p) as [tws|]; [|reflexivity]. cbn [olist].
+    apply times_ok_no_panic. now apply negb_false_iff.
+  Qed.
+
+  Lemma conditional_safe : conditional_panic d = false.
+  Proof.
+    destruct (known_false d Hk) as (_ & _ & _ & _ & H5 & _).
+    unfold conditional_panic. apply existsb_false. intros v Hin. destruct (v_ids v) as [|vid vids]; [reflexivity|].
+    apply existsb_false. intros s Hs. apply orb_false_iff. split.
+    - apply existsb_false. intros b Hb. destruct (sh_breaks s) as [bs|] eqn:Eb; [|destruct Hb]. cbn [olist] in Hb.
+      destruct b as [w|o|e l dur|e l dur]; try reflexivity.
+      + destruct (breaks_some v s bs (parse_window w) Hin Hs Eb) as (x & Hx).
+        * unfold break_windows. apply in_flat_map. exists (BOptTW w). split; [exact Hb|now left].
+        * now apply (parse_window_some w x).
+      + unfold k5_offset_arity in H5. rewrite existsb_false in H5. specialize (H5 v Hin). cbn beta in H5.
+        rewrite existsb_false in H5. specialize (H5 s Hs). cbn beta in H5. rewrite Eb in H5.
+        rewrite existsb_false in H5. exact (H5 _ Hb).
+    - apply existsb_false. intros r Hr. destruct (sh_reloads s) as [rs|] eqn:Er; [|destruct Hr]. cbn [olist] in Hr.
+      unfold times_panic. destruct (rl_times r) as [tws|] eqn:Et; [|reflexivity]. cbn [olist].
+      apply existsb_false. intros w Hw.
+      destruct (reloads_some v s rs (parse_window w) Hin Hs Er) as (x & Hx).
+      + unfold reload_windows. apply in_flat_map. exists r. split; [exact Hr|]. rewrite Et. now apply in_map.
+      + now apply (parse_window_some w x).
+  Qed.
+
+  Lemma reader_safe : reader_panics d = false.
+  Proof. unfold reader_panics. now rewrite fleet_safe, reserved_safe, jobs_safe, conditional_safe. Qed.
+End Safe.
+
+(* ---------- the three clauses of the property, outside the known classes ---------- *)
+Lemma approx_ok d : known d = false -> approx_panics d = false.
+Proof. intros Hk. destruct (known_false d Hk) as (_ & _ & _ & _ & _ & _ & _ & _ & _ & H10). exact H10. Qed.
+
+Lemma read_total_l d : known d = false -> read d <> RPanic.
+Proof.
+  intros Hk. unfold read, validate_approx. rewrite (approx_ok d Hk), (validate_spec d Hk).
+  destruct (spec_result_cases d) as [[E Hv]|(cs & E & _)]; rewrite E; [|discriminate].
+  now rewrite (reader_safe d Hk Hv).
+Qed.
+
+Lemma accept_iff_l d : known d = false ->
+  (read d = ROk <-> forall c, In c gen_doc_validation -> violates c d = false).
+Proof.
+  intros Hk. unfold read, validate_approx. rewrite (approx_ok d Hk), (validate_spec d Hk).
+  destruct (spec_result_cases d) as [[E Hv]|(cs & E & Hne & Hcs)]; rewrite E.
+  - rewrite (reader_safe d Hk Hv). split; [intros _ c _|reflexivity].
+    destruct (in_dec Z.eq_dec c (map fst all_checks)) as [Hin|Hout]; [now apply Hv|].
+    unfold violates. destruct (lookup c spec_table) as [f|] eqn:El; [|reflexivity]. exfalso. apply Hout.
+    clear -El. change (map fst all_checks) with (map fst spec_table). revert El. generalize spec_table.
+    induction l as [|[k g] r IH]; cbn; [discriminate|]. destruct (Z.eqb_spec c k); [now left|]. intros H. right. now apply IH.
+  - split; [discriminate|]. intros H. exfalso. destruct cs as [|c cs]; [now apply Hne|].
+    destruct (proj1 (Hcs c) (or_introl eq_refl)) as [Hin Hvi]. rewrite H in Hvi; [discriminate|].
+    assert (Hs : subset (map fst all_checks) gen_doc_validation = true) by (vm_compute; reflexivity).
+    now apply (subset_In _ _ Hs).
+Qed.
+
+Lemma codes_exact_l d cs : known d = false -> read d = RErr cs ->
+  cs <> [] /\ NoDup cs /\ forall c, In c cs <-> In c gen_doc_validation /\ violates c d = true.
+Proof.
+  intros Hk. unfold read, validate_approx. rewrite (approx_ok d Hk), (validate_spec d Hk).
+  destruct (spec_result_cases d) as [[E Hv]|(cs' & E & Hne & Hcs)]; rewrite E.
+  - now rewrite (reader_safe d Hk Hv).
+  - intros H. inversion H; subst cs'. clear H. split; [exact Hne|]. split.
+    + unfold spec_result in E. destruct (filter _ _) eqn:Ef in E; [discriminate|]. inversion E; subst cs. rewrite <- Ef.
+      apply NoDup_filter. assert (Hn : znodup (map fst all_checks) = true) by (vm_compute; reflexivity).
+      revert Hn. generalize (map fst all_checks). induction l0 as [|x r IH]; cbn; intros Hn; constructor.
+      * apply andb_prop in Hn. destruct Hn as [Hx _]. intro Hin. apply zmem_In in Hin. rewrite Hin in Hx. discriminate.
+      * apply IH. apply andb_prop in Hn. tauto.
+    + intros c. rewrite Hcs. split; intros [Hin Hvi]; split; auto.
+      * assert (Hs : subset (map fst all_checks) gen_doc_validation = true) by (vm_compute; reflexivity).
+        now apply (subset_In _ _ Hs).
+      * destruct (in_dec Z.eq_dec c (map fst all_checks)) as [Hi|Hout]; [exact Hi|]. exfalso.
+        unfold violates in Hvi. destruct (lookup c spec_table) as [f|] eqn:El; [|discriminate]. apply Hout.
+        clear -El. change (map fst all_checks) with (map fst spec_table). revert El. generalize spec_table.
+        induction l as [|[k g] r IH]; cbn; [discriminate|]. destruct (Z.eqb_spec c k); [now left|]. intros H. right. now apply IH.
+Qed.
